@@ -221,9 +221,29 @@ func ruleGroupDelta(rule string) func(*Ctx) {
 			}, stop: nil}
 			outs := ex.explore(nil)
 			bad := ""
+			stripSeen := false
 			for _, p := range outs {
 				for _, cl := range p.calls {
+					// the stripping loop may have been moved into a helper that receives the closed flag
+					if cl.instr != nil && cl.callee != "StripDuplicates" {
+						if h := cl.instr.Common().StaticCallee(); h != nil && c.freshFunc(h) {
+							for _, sc := range callsTo(c, h, "StripDuplicates") {
+								if hp, ok := sc.Common().Args[1].(*ssa.Parameter); ok {
+									for k, q := range h.Params {
+										if q == hp && k < len(cl.args) {
+											wantClosed := et.name == "Polygon" || et.name == "Joined"
+											if cl.args[k].abs.k != aBool || cl.args[k].abs.b != wantClosed {
+												bad = fmt.Sprintf("%s(…, %s) for end type %s: the paths are stripped as %s", c.fname(h), cl.args[k].expr, et.name, map[bool]string{true: "open although they are closed/joined", false: "closed although they are open polylines (a last point equal to the first is dropped, the closing segment is never stroked)"}[wantClosed])
+											}
+											stripSeen = true
+										}
+									}
+								}
+							}
+						}
+					}
 					if cl.callee == "StripDuplicates" {
+						stripSeen = true
 						wantClosed := et.name == "Polygon" || et.name == "Joined"
 						if cl.args[1].abs.k != aBool || cl.args[1].abs.b != wantClosed {
 							bad = fmt.Sprintf("StripDuplicates(path, %s) for end type %s: the path is treated as %s", cl.args[1].expr, et.name, map[bool]string{true: "open although it is closed/joined", false: "closed although it is an open polyline (a last point equal to the first is dropped, the closing segment is never stroked)"}[wantClosed])
@@ -258,6 +278,9 @@ func ruleGroupDelta(rule string) func(*Ctx) {
 						}
 					}
 				}
+			}
+			if !stripSeen && bad == "" {
+				bad = "no path of NewGroup strips the paths' repeated points (StripDuplicates, directly or through a helper that is handed the closed flag)"
 			}
 			c.check(bad == "", rule, fmt.Sprintf("%s:NewGroup:%s", rule, et.name), ng.Pos(), "NewGroup",
 				fmt.Sprintf("end type %s: duplicates stripped as %s path; pathsReversed only for polygons with a negative lowest path", et.name, map[bool]string{true: "closed", false: "open"}[et.name == "Polygon" || et.name == "Joined"]), bad,
